@@ -343,7 +343,10 @@ def run_schedule_scenario(p, wd):
         pck = PlotfileCooker(path)
         nb = len(pck.cells[pck.limit_level]["files"])
         sel = list(range(nb))[::-1][: 6]
-        return list(pck[:][pck.limit_level][sel]) + list(pck[1][0][:])
+        # (a list selection not starting at the first field, read through one stream for many boxes and box by box)
+        lst = pck[[1, 2]][pck.limit_level]
+        return list(pck[:][pck.limit_level][sel]) + list(pck[1][0][:]) + list(lst[:]) + [lst[0], lst[nb - 1]] + \
+            list(pck[["temp", "volFrac"]][0][[len(pck.cells[0]["files"]) - 1, 0]])
 
     def t_iter(out):
         pck = PlotfileCooker(path)
